@@ -148,6 +148,12 @@ class Scenario:
         if a.n.eq(b.n) and a.d.eq(b.d):
             self._record(lab, "syntactic", "unsat", impl=ac, ref=bc)
             return True
+        if differs:
+            # the real code's output already differs from the reference AT the witness: a concrete counterexample
+            # (this is the replayed form of any model the solver could return); no query needed
+            self._record(lab, "witness", "sat", impl=ac, ref=bc)
+            self.violations.append({"label": lab, "impl": ac, "ref": bc, "kind": "witness"})
+            return False
         r, mdl = CTX.check(eq_formula(a, b), self.qtimeout)
         if r == "sat" and not differs and self._log_linear_eq(a, b):
             r = "unsat"  # discharged after normalising sums of logarithms into one product identity
@@ -305,11 +311,43 @@ class Scenario:
         return ov
 
     def vacuity_guard(self):
+        """an unsatisfiable path condition would make every obligation pass. Guards: (i) the reachability twin of the first
+        solver-discharged obligation (a deliberately wrong reference must be refuted: done in _one_eq); (ii) the witness
+        itself satisfies every path-condition formula numerically; (iii) when neither is available, a solver sat check."""
         if self.replay:
             return
-        r = CTX.pc_sat()
-        if r != "sat":
-            raise HarnessError("path condition not satisfiable (%s): vacuous run" % r)
+        if self.twins > 0:
+            return
+        ok, bad = self._witness_satisfies_pc()
+        if not ok:
+            raise HarnessError("the witness does not satisfy the path condition: %s" % bad)
+        if not any(o["how"] == "z3" for o in self.obligations):
+            return  # nothing was discharged through the path condition
+        r = CTX.pc_sat(20000)
+        if r == "unsat":
+            raise HarnessError("path condition not satisfiable: vacuous run")
+
+    def _witness_satisfies_pc(self):
+        from .core import Eval
+        ev = Eval()
+        for f in CTX.pc:
+            try:
+                if z3.is_eq(f) and z3.is_real(f.arg(0)):
+                    l, r = ev.cev(f.arg(0)), ev.cev(f.arg(1))
+                    if abs(l - r) > 1e-7 * max(1.0, abs(l), abs(r)):
+                        return False, str(f)[:200]
+                elif not ev.cevb(f):
+                    # strict / non-strict inequalities that hold with equality up to rounding are tolerated
+                    if z3.is_app(f) and f.decl().kind() in (z3.Z3_OP_LE, z3.Z3_OP_GE, z3.Z3_OP_LT, z3.Z3_OP_GT):
+                        l, r = ev.cev(f.arg(0)), ev.cev(f.arg(1))
+                        if abs(l - r) <= 1e-9 * max(1.0, abs(l), abs(r)):
+                            continue
+                    return False, str(f)[:200]
+            except Unsupported:
+                continue
+            except Exception:
+                continue
+        return True, None
 
     # ---------------------------------------------------------------- result
     def result(self):
